@@ -309,7 +309,13 @@ class PropertyDescriptor(Symbol):
         :param domain_value: The domain value to update (i.e., the instance that this descriptor is attached to).
         :param range_value: The range value to update (i.e., the value to set on the managed attribute).
         """
-        v = getattr(domain_value, self.private_attr_name)
+        v = getattr(domain_value, self.private_attr_name, None)
+        if v is None and self.is_iterable:
+            # the constructor of the instance is still running (an earlier field asserted a sub property of this one):
+            # the container is created now, the constructor assigns the field later
+            v = monitored_type_map[self.wrapped_field.container_type](descriptor=self)
+            self._bind_owner_if_container_type(v, owner=domain_value)
+            setattr(domain_value, self.private_attr_name, v)
         updated = False
         if isinstance(v, MonitoredContainer):
             updated = v._update(range_value, add_relation_to_the_graph=False)
